@@ -998,7 +998,72 @@ func (ex *executor) judgeExchange(idx int, st *Step, xc *Exchange) {
 			}
 		}
 	}
+	if xc.Resp.Status == 207 && !xc.RespCut && !diskFault && (ex.opts.Own == "C03" || ex.opts.Own == "") && !ex.stop {
+		ex.reAddress(idx, class, xc, after)
+	}
 	ex.snap = after
+}
+
+// reAddress sends hrefs of a listing back as request paths, literally: the
+// resource the server then talks about must be the one the href stood for in
+// the listing (same kind, for files the same bytes). This is C03's "addresses
+// the same resource when sent back" carried out instead of computed.
+func (ex *executor) reAddress(idx int, class string, xc *Exchange, snap map[string]model.Entry) {
+	ms, err := model.ParseMultiStatus(xc.Resp.Body)
+	if err != nil {
+		return
+	}
+	var hrefs []string
+	for _, r := range ms.Responses {
+		hrefs = append(hrefs, r.Hrefs...)
+	}
+	if len(hrefs) == 0 {
+		return
+	}
+	rr := rt.NewRand(rt.Mix(ex.plan.RunSeed, uint64(idx), 0x4ef5))
+	for k := 0; k < 2 && k < len(hrefs); k++ {
+		h := hrefs[rr.Intn(len(hrefs))]
+		ref := model.ParseHref(h)
+		n := model.Normalise(ref.Path)
+		e, ok := snap[n.Path]
+		if !ref.OK || !n.OK || !ok || strings.ContainsAny(h, " \r\n") {
+			continue // reported by checkHrefs already (or not sendable as a request-target)
+		}
+		target := h
+		if ref.HasAuth {
+			continue
+		}
+		method := "PROPFIND"
+		if !e.Dir {
+			method = "GET"
+		}
+		pst := &Step{Client: -1, Method: method, Target: target, Probe: true}
+		if method == "PROPFIND" {
+			pst.set("Depth", "0")
+		}
+		ex.seam.BeginStep(nil)
+		px := ex.serve(idx, pst)
+		if px.Skipped != "" {
+			continue
+		}
+		ex.probe("href-sent-back")
+		ex.log.Addf("  href %q sent back as %s -> %d", h, method, px.Resp.Status)
+		switch {
+		case px.Resp.Status/100 != 2:
+			ex.finding(Violation{Prop: "C03", Clause: "href-other-resource", Class: class, Msg: fmt.Sprintf("href %q (= %s, stored) sent back as the request path of a %s was answered %d", h, n.Path, method, px.Resp.Status), Step: idx})
+		case !e.Dir && !bytes.Equal(px.Resp.Body, e.Data):
+			ex.finding(Violation{Prop: "C03", Clause: "href-other-resource", Class: class, Msg: fmt.Sprintf("href %q (= %s) sent back as the request path of a GET returned other bytes than that file holds (%d vs %d bytes)", h, n.Path, len(px.Resp.Body), len(e.Data)), Step: idx})
+		case e.Dir:
+			if pms, err := model.ParseMultiStatus(px.Resp.Body); err == nil && len(pms.Responses) == 1 {
+				if t := pms.Responses[0].Prop("{DAV:}resourcetype"); t != nil && t.Elem.Child(model.DAV, "collection") == nil {
+					ex.finding(Violation{Prop: "C03", Clause: "href-other-resource", Class: class, Msg: fmt.Sprintf("href %q (= %s, a collection) sent back as the request path of a PROPFIND describes something that is not a collection", h, n.Path), Step: idx})
+				}
+			}
+		}
+		if len(ex.seam.Outside) > 0 {
+			ex.finding(Violation{Prop: "C03", Clause: "outside-access", Class: class, Msg: fmt.Sprintf("sending href %q back left the served root: %s", h, strings.ReplaceAll(strings.Join(ex.seam.Outside, ", "), ex.w.Sandbox, "$SB")), Step: idx})
+		}
+	}
 }
 
 // abstractShape forgets names and sizes: per depth, how many collections and
